@@ -17,9 +17,8 @@
    * a parse action replaces the tokens of its element;
    * parseString WITHOUT parseAll: text after the match is ignored; a failure
      is ParseException (None here).
-   parseString also replaces tabs by spaces (expandtabs) before parsing; tabs and
-   spaces are both skipped and neither can occur inside a token, so this is not
-   observable on the token list and is not modelled (tested by correspondence).
+   parseString first replaces tabs by spaces (str.expandtabs); this is modelled
+   (expandtabs, parse_string) and proved unobservable on the token list.
 
    Strings are lists of code points.  DOMAIN: cmp_value and spec are str. *)
 From Coq Require Import String.
@@ -164,8 +163,25 @@ Fixpoint first_alt (alts : list alt) (s : str) : tokres :=
               end
   end.
 
-(* make_grammar().parseString(spec).asList(); None = ParseException *)
+(* expr._parse(instring, 0) and the token list of the result; None = ParseException *)
 Definition parse (spec : str) : option (list str) := option_map fst (first_alt expr_alts spec).
+
+(* str.expandtabs() (tab size 8; '\n' and '\r' start a new line), which parseString
+   applies to the text first *)
+Fixpoint expandtabs_go (col : nat) (s : str) : str :=
+  match s with
+  | [] => []
+  | c :: t =>
+      if c =? 9 then
+        let k := (8 - Nat.modulo col 8)%nat in repeatN 32 k ++ expandtabs_go (col + k) t
+      else if (c =? 10) || (c =? 13) then c :: expandtabs_go 0 t
+      else c :: expandtabs_go (S col) t
+  end.
+Definition expandtabs (s : str) : str := expandtabs_go 0 s.
+
+(* make_grammar().parseString(spec).asList().  Proofs/C18.v (parse_string_eq) shows
+   that the tab expansion never changes the token list: parse_string = parse. *)
+Definition parse_string (spec : str) : option (list str) := parse (expandtabs spec).
 
 (* ---------- op_methods ---------- *)
 
@@ -290,7 +306,7 @@ Definition apply_meth (m : meth) (x : str) (args : list str) : outcome :=
 
 (* match(cmp_value, spec) *)
 Definition tree_of (spec : str) : list str :=
-  match parse spec with Some t => t | None => [spec] end.
+  match parse_string spec with Some t => t | None => [spec] end.
 
 Definition match_ (v spec : str) : outcome :=
   match tree_of spec with
